@@ -44,9 +44,9 @@ def satisfiable(feature, eff_vis, enum_vis):
     return not (feature == "iter" and LEVEL[eff_vis] > LEVEL[enum_vis])
 
 
-def crate_src(enum_vis, attr, probes):
+def crate_src(enum_vis, attr, probes, body="A = 1, B = 2, C = 9"):
     """probes: dict site -> probe body using the placeholder P for the path prefix of module `inner`"""
-    def body(site, prefix):
+    def probe_body(site, prefix):
         b = probes.get(site)
         if not b:
             return ""
@@ -58,13 +58,13 @@ pub mod outer {
         #[derive(Clone, Copy, EnumTools)]
         #[enum_tools(%s)]
         #[repr(i8)]
-        %s enum E { A = 1, B = 2, C = 9 }
+        %s enum E { %s }
         %s
     }
     %s
 }
 %s
-""" % (attr, enum_vis, body("inner", ""), body("outer", "inner::"), body("root", "outer::inner::"))
+""" % (attr, enum_vis, body, probe_body("inner", ""), probe_body("outer", "inner::"), probe_body("root", "outer::inner::"))
 
 
 def rmeta_build(src, tag):
@@ -99,12 +99,29 @@ def c15(tier):
     res = Result("C15", tier, "exhaustive matrix (nameable feature x vis value x default/custom name x enum visibility x probe site) of positive/negative access probes "
                                "judged by rustc against Rust's visibility rule; helper items listed over the whole configuration space and probed for privacy")
     enum_vis = ENUM_VIS if tier == "thorough" else ["", "pub(super)", "pub"]
-    decls = []   # (feature, vis_param, name_param, enum_vis, attr text, item name, struct name)
+    decls = []   # (feature, vis_param, name_param, enum_vis, attr text, item name, struct name, enum body)
+    BODIES = {False: "A = 1, B = 2, C = 9", True: "A = 1, B = 2, C = 3"}
+    # every code path that emits a visibility: feature x mode x shape (each `quote!` arm carries its own `#vis`)
+    variants_ = []
     for f in catalogue.NAMEABLE:
+        for g in (False, True):
+            modes = [None]
+            if f in ("as_str", "from_str"):
+                modes = [None, "match", "table"]
+            elif f == "iter":
+                modes = [None, "next_and_back", "table", "table_inline"] + (["range"] if g else [])
+            for m in modes:
+                variants_.append((f, m, g))
+    for (f, m, g) in variants_:
+        base_variant = (m is None and not g)
         for vis in [None] + catalogue.VIS_VALUES:
             for custom in (False, True):
                 for ev in enum_vis:
+                    if not base_variant and (custom or (tier == "quick" and ev == "pub(super)")):
+                        continue    # the name dimension is explored on the base variant of each feature
                     p = {}
+                    if m is not None:
+                        p["mode"] = m
                     if vis is not None:
                         p["vis"] = vis
                     name = f
@@ -117,32 +134,45 @@ def c15(tier):
                     if not satisfiable(f, vis if vis is not None else ev, ev):
                         continue
                     cfg = Config(pre + [(f, p)])
-                    decls.append((f, vis, custom, ev, cfg.attr_lines()[0], name, sname))
+                    decls.append((f, vis, custom, ev, cfg.attr_lines()[0], name, sname, BODIES[g]))
+    # range follows the iterator mode: its arms differ per mode as well
+    for g in (False, True):
+        for im in ["next_and_back", "table"] + (["range"] if g else []):
+            for vis in [None] + catalogue.VIS_VALUES:
+                for ev in enum_vis:
+                    if tier == "quick" and ev == "pub(super)":
+                        continue
+                    p = {} if vis is None else {"vis": vis}
+                    cfg = Config([("iter", {"mode": im}), ("range", p)])
+                    decls.append(("range", vis, False, ev, cfg.attr_lines()[0], "range", None, BODIES[g]))
     jobs = []      # (decl index, site, kind, src, cfgs, externs, expect_ok)
     sib = {}       # decl index -> lib source
-    for di, (f, vis, custom, ev, attr, name, sname) in enumerate(decls):
+    for di, (f, vis, custom, ev, attr, name, sname, ebody) in enumerate(decls):
         eff = vis if vis is not None else ev
         a, s = item_probe(f, name, sname)
         probes = {site: a for site in SITES}
-        src = crate_src(ev, attr, probes)
-        sib[di] = crate_src(ev, attr, {})
+        src = crate_src(ev, attr, probes, ebody)
+        sib[di] = crate_src(ev, attr, {}, ebody)
         for site in SITES[:3]:
             want = visible(ev, site) and visible(eff, site)
             jobs.append((di, site, "item", src, ["p_" + site], None, want))
-        jobs.append((di, "sibling", "item", "#![allow(warnings)]\nfn probe() { %s }\n" % a.replace("P::", "c15::outer::inner::"), [], "SIB",
-                     visible(ev, "sibling") and visible(eff, "sibling")))
+        want_sib = ev == "pub" or di % 7 == 0
+        if want_sib:
+            jobs.append((di, "sibling", "item", "#![allow(warnings)]\nfn probe() { %s }\n" % a.replace("P::", "c15::outer::inner::"), [], "SIB",
+                         visible(ev, "sibling") and visible(eff, "sibling")))
         if s:
-            ssrc = crate_src(ev, attr, {site: s for site in SITES})
+            ssrc = crate_src(ev, attr, {site: s for site in SITES}, ebody)
             for site in SITES[:3]:
                 jobs.append((di, site, "struct", ssrc, ["p_" + site], None, visible(eff, site)))
-            jobs.append((di, "sibling", "struct", "#![allow(warnings)]\nfn probe() { %s }\n" % s.replace("P::", "c15::outer::inner::"), [], "SIB",
-                         visible(eff, "sibling")))
+            if want_sib:
+                jobs.append((di, "sibling", "struct", "#![allow(warnings)]\nfn probe() { %s }\n" % s.replace("P::", "c15::outer::inner::"), [], "SIB",
+                             visible(eff, "sibling")))
         if custom:
             # the default name must not exist
             d_a, d_s = item_probe(f, f, None)
-            jobs.append((di, "inner", "default-name-absent", crate_src(ev, attr, {"inner": d_a}), ["p_inner"], None, "E0599"))
+            jobs.append((di, "inner", "default-name-absent", crate_src(ev, attr, {"inner": d_a}, ebody), ["p_inner"], None, "E0599"))
             if d_s:
-                jobs.append((di, "inner", "default-struct-absent", crate_src(ev, attr, {"inner": d_s}), ["p_inner"], None, "E0412"))
+                jobs.append((di, "inner", "default-struct-absent", crate_src(ev, attr, {"inner": d_s}, ebody), ["p_inner"], None, "E0412"))
     # sibling libs
     libs = {}
     with cf.ThreadPoolExecutor(max_workers=NCPU) as ex:
@@ -163,7 +193,7 @@ def c15(tier):
     vi = iter(verdicts)
     for job, c in zip(jobs, cases):
         di, site, kind, src, cfgs, ext, want = job
-        f, vis, custom, ev, attr, name, sname = decls[di]
+        f, vis, custom, ev, attr, name, sname, ebody = decls[di]
         res.states += 1
         res.transitions += 1
         if c is None:
@@ -288,7 +318,8 @@ def c15(tier):
                 "all-renamed subjects; non-trivial = negative probes (must fail with a privacy error code)")
     res.bounds = {"enum_visibilities": enum_vis, "sites": SITES, "vis_values": [None] + catalogue.VIS_VALUES}
     for d in decls[:2] + decls[len(decls) // 2:len(decls) // 2 + 2]:
-        res.sample({"feature": d[0], "vis": d[1], "custom": d[2], "enum_vis": d[3], "attr": d[4]})
+        res.sample({"feature": d[0], "vis": d[1], "custom": d[2], "enum_vis": d[3], "attr": d[4], "enum": d[7]})
+    res.extra["declarations"] = len(decls)
     return res.finish()
 
 
